@@ -178,6 +178,10 @@ run_directed = directed.run
 
 
 def cases(tier, rng):
+    for c in directed.constructor_interrupted_cases():
+        yield "directed-constructor-interrupted", c
+    for c in directed.reserved_keyword_after_valid_calls_cases():
+        yield "directed-reserved-keyword-after-valid-calls", c
     thorough = tier == "thorough"
     for c in directed.rejected_constructions_do_not_accumulate_cases():
         yield "directed-rejected-constructions-do-not-accumulate", c
